@@ -40,6 +40,9 @@ type spec struct {
 	Rendez   bool  `json:"rendezvous_get_inside_f"`
 	Nested   bool  `json:"nested_do"`
 	SlowF    bool  `json:"slow_f"`
+	// NilKeys: bit k set = the genuine result of f(key k) is nil (testscript caches the error of an
+	// executable lookup this way: nil is the common answer). Computed once all the same.
+	NilKeys int `json:"keys_whose_result_is_nil"`
 }
 
 type violationRec struct {
@@ -79,7 +82,11 @@ func perturb(x uint64) {
 
 type keyPtr struct{ n int }
 
+// nilKeys is the NilKeys mask of the run in progress (runs of a batch are sequential).
+var nilKeys int
+
 func oneRun(sp spec, out *batchOut) {
+	nilKeys = sp.NilKeys
 	var c par.Cache
 	calls := make([]int32, sp.K)
 	inF := make([]int32, sp.K)
@@ -137,6 +144,12 @@ func oneRun(sp spec, out *batchOut) {
 				out.Rendezvous++
 				outMu.Unlock()
 			}
+			if sp.NilKeys&(1<<k) != 0 {
+				perturb(x >> 9)
+				atomic.StoreInt32(&inF[k], 0)
+				atomic.StoreInt32(&completed[k], 1)
+				return nil
+			}
 			r := &result{key: k, serial: atomic.AddInt64(&serial, 1)}
 			for i := range r.pad {
 				r.pad[i] = int64(k)*1000 + int64(i)
@@ -182,7 +195,7 @@ func oneRun(sp spec, out *batchOut) {
 					doneBefore := atomic.LoadInt32(&completed[k]) == 1
 					v := c.Get(keys[k])
 					atomic.AddInt64(&getCalls, 1)
-					if v == nil {
+					if v == nil && sp.NilKeys&(1<<k) == 0 {
 						atomic.AddInt64(&getNil, 1)
 						_ = doneBefore // nil after completion is only wrong if some Do(k) had RETURNED before; checked below via doReturned
 					} else {
@@ -222,6 +235,12 @@ func oneRun(sp spec, out *batchOut) {
 }
 
 func checkValue(api string, k int, v any, nilOK bool, completed []int32, published []atomic.Pointer[result], viol func(kind, detail string)) {
+	if nilKeys&(1<<k) != 0 {
+		if v != nil {
+			viol("value-for-a-nil-result", fmt.Sprintf("%s(key %d) returned %v (%T) although the result f computed is nil", api, k, v, v))
+		}
+		return
+	}
 	if v == nil {
 		if !nilOK {
 			viol("do-returned-nil", fmt.Sprintf("%s(key %d) returned nil although f returns a non-nil result", api, k))
@@ -254,6 +273,9 @@ func genSpec(rng *rand.Rand) spec {
 	s.Rendez = rng.Intn(4) == 0
 	s.Nested = rng.Intn(3) == 0
 	s.SlowF = rng.Intn(3) == 0
+	if rng.Intn(3) == 0 {
+		s.NilKeys = rng.Intn(1 << s.K)
+	}
 	return s
 }
 
@@ -295,7 +317,7 @@ func main() {
 		return
 	}
 	vlib.Main("C10", "exploration", 15*time.Minute, func(r *vlib.Run) {
-		r.Rule("runs: 2-32 goroutines x 1-6 keys (string keys as in testscript's exec cache, pointer keys as in goproxytest's zip cache, ints) x 1-6 random Do/Get operations each, with fast / slow / nested f; a quarter of the runs are rendezvous runs in which f(key 0) does not finish until another goroutine's Get(key 0) has returned. Every Do/Get result is checked against the monitor. Each batch runs in a child, in a non-race build (runtime deadlock detector) and a race build (watchdog + dump + race detector), GOMAXPROCS in {1,2,16}. Distinct non-trivial = Do calls that arrived while f for their key was in progress (measured), plus completed rendezvous.")
+		r.Rule("runs: 2-32 goroutines x 1-6 keys (string keys as in testscript's exec cache, pointer keys as in goproxytest's zip cache, ints) x 1-6 random Do/Get operations each, with fast / slow / nested f, in a third of the runs some keys' genuine result is nil (still computed once); a quarter of the runs are rendezvous runs in which f(key 0) does not finish until another goroutine's Get(key 0) has returned. Every Do/Get result is checked against the monitor. Each batch runs in a child, in a non-race build (runtime deadlock detector) and a race build (watchdog + dump + race detector), GOMAXPROCS in {1,2,16}. Distinct non-trivial = Do calls that arrived while f for their key was in progress (measured), plus completed rendezvous.")
 		r.Assume("interleavings are sampled, not enumerated; the race detector sees only the executions that happened")
 		base := vlib.Scratch()
 		build := os.Getenv("VERIF_BUILD")
